@@ -66,8 +66,8 @@ def apalache_inductive():
     import subprocess
     from core import MachineryError, SPEC
     wd = workdir("apalache_jsoncodec")
-    for f in ("JsonCodec.tla", "MC_JsonCodecApa.tla"):
-        shutil.copy(os.path.join(SPEC, f), wd)
+    shutil.copy(os.path.join(SPEC, "JsonCodec.tla"), wd)
+    shutil.copy(os.path.join(SPEC, "apalache", "MC_JsonCodecApa.tla"), wd)     # (kept out of spec/*.tla: SANY has no Apalache module)
     runs = (("Init", "IndInv", 0, True), ("IndInit", "IndInv", 1, True), ("IndInit", "WellNested", 0, True), ("IndInit", "OpenInstallerMeansInstalled", 0, False))
     for init, inv, length, want_ok in runs:
         p = subprocess.run(["apalache-mc", "check", "--init=" + init, "--inv=" + inv, "--length=%d" % length, "--out-dir=" + os.path.join(wd, "out"),
